@@ -625,7 +625,16 @@ func buildHandlers() map[string]handler {
 	concStr("strings.TrimSpace", func(a []string) Value { return Str{conc: strings.TrimSpace(a[0])} })
 	concStr("strings.HasPrefix", func(a []string) Value { return B(strings.HasPrefix(a[0], a[1])) })
 	concStr("strings.HasSuffix", func(a []string) Value { return B(strings.HasSuffix(a[0], a[1])) })
-	concStr("strings.Contains", func(a []string) Value { return B(strings.Contains(a[0], a[1])) })
+	h["strings.Contains"] = func(e *Exec, fn *ssa.Function, a []Value) Value {
+		x, y := a[0].(Str), a[1].(Str)
+		if x.isConc() && y.isConc() {
+			return B(strings.Contains(x.conc, y.conc))
+		}
+		if f := e.prog.ImportedPackage(zzPkg); f != nil && f.Func("StringsContains") != nil && x.atom == nil && y.atom == nil {
+			return e.call(f.Func("StringsContains"), a, nil)
+		}
+		panic(unsupported("strings.Contains on atom string"))
+	}
 	concStr("strings.Index", func(a []string) Value { return K(int64(strings.Index(a[0], a[1]))) })
 	strSlice := func(e *Exec, parts []string) Value {
 		sl := e.newSlice(types.Typ[types.String], len(parts), len(parts))
